@@ -253,7 +253,7 @@ impl Cfg {
             2 | 3 => Buf::PerMille(1000),
             4 => Buf::PerMille(rng.range(1000, 3000) as u16),
             5 => Buf::Size(262144),
-            6 => Buf::Size(*rng.pick(&[0u32, 1, 131072, 262143, 400000, 524288, 1 << 20])),
+            6 => Buf::Size(*rng.pick(&[0u32, 1, 131072, 262143, 400000, 524288, 1 << 20, 1 << 28, (1 << 28) + 4096, 1 << 31, u32::MAX])),
             _ => Buf::Size(rng.range(0, 2_000_000) as u32),
         }
     }
